@@ -12,7 +12,7 @@ func init() { evaluators["C08"] = evalC08 }
 
 // C08Case: the scenario's Inputs are the arguments pre-supplied to Redefine.
 type C08Case struct {
-	InFilter   []int `json:"inFilter"`   // permitted input types; HasIn=false => no filter
+	InFilter   []int `json:"inFilter"` // permitted input types; HasIn=false => no filter
 	HasIn      bool  `json:"hasIn"`
 	OutFilter  []int `json:"outFilter"`
 	HasOut     bool  `json:"hasOut"`
